@@ -354,7 +354,10 @@ func (b *GRPCBroker) Accept(id uint32) (net.Listener, error) {
 			},
 		}
 
-		return ln, nil
+		// Like the listeners of the non-multiplexed path, a listener that is
+		// still open when the broker is closed is closed by Close: that ends
+		// its knock loop above and unblocks whoever is serving it.
+		return b.trackListener(ln), nil
 	}
 
 	listener, err := serverListener(b.unixSocketCfg)
